@@ -17,8 +17,9 @@ AllowedKeys == {r.key : r \in ToSet(ndJsonDeserialize(IOEnv.VERIF_ALLOWED_FILE))
 TraceMailboxes == TLCEval({TraceLog[i].mb : i \in {j \in DOMAIN TraceLog : Has("mb", TraceLog[j])}})
 
 VARIABLES l,
-          exp      \* C16: the after-events the contract expects so far, in order
-tvars == <<boxes, used, arrival, cap, limit, l, exp>>
+          exp,     \* C16: the after-events the contract expects so far, in order
+          pre      \* C11: the mailboxes before the last operation
+tvars == <<boxes, used, arrival, cap, limit, l, exp, pre>>
 
 Ev == TraceLog[l]
 Is(a) == l <= Len(TraceLog) /\ Ev.a = a /\ l' = l + 1
@@ -29,7 +30,8 @@ StepEvents ==
     LET new  == UNION {{[k |-> "stored", mb |-> m, id |-> i] : i \in used'[m] \ used[m]} : m \in Mailbox}
         gone == UNION {{[k |-> "deleted", mb |-> m, id |-> i] : i \in (Ids(boxes, m) \cup (used'[m] \ used[m])) \ Ids(boxes', m)} : m \in Mailbox}
     IN  SetToSeq(new) \o SetToSeq(gone)
-Mark  == /\ exp' = IF Ev.a = "reset" THEN <<>> ELSE exp \o StepEvents
+Mark  == /\ pre' = boxes
+         /\ exp' = IF Ev.a = "reset" THEN <<>> ELSE exp \o StepEvents
          /\ TLCSet(1, l + 1)              \* high-water mark (last conjunct of every action)
 
 Snap(b) == {[mb |-> m, msgs |-> b[m]] : m \in {x \in Mailbox : b[x] # <<>>}}
@@ -37,7 +39,7 @@ SnapOK(b) == /\ Ev.serr = <<>>
              /\ Len(Ev.s) = Cardinality(Snap(b))
              /\ ToSet(Ev.s) = Snap(b)
 
-TraceInit == /\ l = 1 /\ exp = <<>>
+TraceInit == /\ l = 1 /\ exp = <<>> /\ pre = [m \in Mailbox |-> <<>>]
              /\ Init(0, 0)
 
 TrReset == /\ Is("reset")
@@ -119,7 +121,23 @@ TrEvents == /\ Is("events")
             /\ (StoredBeforeDeleted /\ ArrivalOrder) \/ Dev("C16.async-broker.reordered-invocations")
             /\ UNCHANGED svars /\ SnapOK(boxes) /\ Mark
 
-TraceNext == \/ TrEvents \/ TrReset \/ TrAdd \/ TrSeen \/ TrRemove \/ TrPurge \/ TrScan
+(* C11: the process died at some instant of the last operation (Ev.site, Ev.variant); a fresh  *)
+(* store opened on what was left on disk must list and visit every mailbox without error, read *)
+(* every body in full, show the interrupted operation either completely or not at all, and     *)
+(* accept a new message for the affected mailbox                                               *)
+SnapIs(sq, b) == Len(sq) = Cardinality(Snap(b)) /\ ToSet(sq) = Snap(b)
+AddedTo(b, m, msg) == [b EXCEPT ![m] = CapSuffix(Append(@, msg), cap)]
+TrCrash == /\ Is("crash")
+           /\ Ev.open = "ok" /\ Ev.serr = <<>> /\ Ev.rerr = <<>>
+           /\ Ev.deliver = "ok" /\ Ev.serr2 = <<>>
+           /\ \E base \in {pre, boxes} :
+                 /\ SnapIs(Ev.s, base)
+                 /\ Ev.newid \notin Ids(base, Ev.mb)
+                 /\ SnapIs(Ev.s2, AddedTo(base, Ev.mb, NewMsg(Ev.newid, Ev.newmeta, Ev.newsize)))
+           /\ UNCHANGED svars /\ pre' = pre /\ exp' = exp
+           /\ TLCSet(1, l + 1)
+
+TraceNext == \/ TrCrash \/ TrEvents \/ TrReset \/ TrAdd \/ TrSeen \/ TrRemove \/ TrPurge \/ TrScan
              \/ TrGet \/ TrLatest \/ TrList \/ TrVisit \/ TrReopen \/ TrProbe
 
 TraceSpec == TraceInit /\ [][TraceNext]_tvars
